@@ -142,6 +142,7 @@ def run(ctx) -> None:
   ctx.rule('R4', 'label conversion: same sign factor both ways; no write into the caller\'s array', 3)
   ctx.rule('R5', 'to_parameters splits with the spec list of to_features', 1)
   ctx.rule('R6', 'feature mapper map/unmap walk the same output_specs', 2)
+  ctx.rule('R7', 'index encoding of non-continuous values is exact (feasible_values.index under exact membership, else OOV)', 2)
   mi = ctx.index.module_of_file(CORE)
   r1_scalers(ctx, mi)
   r2_onehot(ctx, mi)
@@ -149,6 +150,50 @@ def run(ctx) -> None:
   r4_labels(ctx, mi)
   r5_split(ctx, mi)
   r6_mapper(ctx)
+  r7_exact_index(ctx, mi)
+
+
+# ----------------------------------------------------------------------- R7
+_TOL = {'isclose', 'allclose', 'approx', 'searchsorted', 'argmin', 'round', 'around', 'rint', 'digitize'}
+
+
+def r7_exact_index(ctx, mi) -> None:
+  """Encoding a DISCRETE/CATEGORICAL/INTEGER value as an index is exact and injective: the index is
+  feasible_values.index(value) under an exact membership test, otherwise the out-of-vocabulary index."""
+  ci = mi.classes.get('DefaultModelInputConverter')
+  fi = ci.methods.get('_convert_index') if ci else None
+  if fi is None:
+    raise AnalysisError('DefaultModelInputConverter._convert_index not found')
+  alias = {}
+  for n in ast.walk(fi.node):
+    if isinstance(n, ast.Assign) and len(n.targets) == 1 and isinstance(n.targets[0], ast.Name):
+      alias[n.targets[0].id] = n.value
+
+  def is_fv(e, d=0):
+    if isinstance(e, ast.Name) and e.id in alias and d < 3:
+      return is_fv(alias[e.id], d + 1)
+    return (dotted(e) or '').endswith('.feasible_values')
+  rets = [r for r in ast.walk(fi.node) if isinstance(r, ast.Return) and r.value is not None]
+  if not rets:
+    raise AnalysisError('_convert_index: no return')
+  tol = [c for c in ast.walk(fi.node) if isinstance(c, ast.Call) and (dotted(c.func) or '').rsplit('.', 1)[-1] in _TOL]
+  for r in rets:
+    v = r.value
+    exact = (isinstance(v, ast.Call) and isinstance(v.func, ast.Attribute) and v.func.attr == 'index' and is_fv(v.func.value)) or \
+        (isinstance(v, ast.Call) and dotted(v.func) == 'len' and v.args and is_fv(v.args[0]))
+    if exact:
+      ctx.ok('R7', f'_convert_index: return at line {r.lineno}', r, 'exact position in feasible_values / out-of-vocabulary index')
+    elif tol:
+      ctx.bad('R7', f'_convert_index: return at line {r.lineno}', r,
+              f'the index is found with `{unparse(tol[0], 60)}` (a tolerance / nearest match, first match wins): feasible values closer '
+              'together than the tolerance are encoded as the same index, so decoding returns a different feasible value',
+              construct='convert-index:tolerance', func=fi.qualname)
+    else:
+      raise AnalysisError(f'_convert_index returns `{unparse(v, 60)}`: neither feasible_values.index(..) nor len(feasible_values)')
+  member = [x for x in ast.walk(fi.node) if isinstance(x, ast.Compare) and len(x.ops) == 1 and isinstance(x.ops[0], ast.In)
+            and is_fv(x.comparators[0])]
+  ctx.check(bool(member) or bool(tol), 'R7', '_convert_index: exact membership test', fi.node, '`value in feasible_values`',
+            'no exact membership test guards feasible_values.index()', construct='convert-index:member', func=fi.qualname)
 
 
 # ----------------------------------------------------------------------- R1
